@@ -110,7 +110,16 @@ def opMagnitude : Op → String
 structure Acc where
   env : Env
   cur : State
+  pq : String := ""     -- the pool records as the keeper's point lookups (by id, by lpt denom) returned them
   out : Array String
+
+/-- the point lookups of the implementation return exactly the listed pools -/
+def lookupsMatch (pools : List Pool) (pq : String) : Bool :=
+  let byId := (listOf pq).filter (fun e => !e.startsWith "byLpt.")
+  let byLpt := ((listOf pq).filter (fun e => e.startsWith "byLpt.")).map (fun e => (e.drop 6).toString)
+  let want := pools.map (fun p => s!"{p.counter}:{p.lpt}:{p.escrow}")
+  want.all (fun w => byId.contains w) && byId.all (fun e => want.contains (unesc e)) &&
+  want.all (fun w => byLpt.contains w) && byLpt.all (fun e => want.contains (unesc e))
 
 def processLine (acc : Acc) (line : String) : Acc :=
   if line.startsWith "E " then
@@ -118,7 +127,7 @@ def processLine (acc : Acc) (line : String) : Acc :=
   else if line.startsWith "S " then
     let kv := kvOf ((line.drop 2).toString.splitOn " ")
     let s := applyMod emptyState kv
-    { acc with cur := { s with bank := applyLedger emptyBank kv } }
+    { acc with cur := { s with bank := applyLedger emptyBank kv }, pq := kv.get "pq" }
   else if line.startsWith "I " then
     -- the SDK's registered invariants evaluated on the real state by the harness
     match line.splitOn " " with
@@ -149,14 +158,18 @@ def processLine (acc : Acc) (line : String) : Acc :=
           (if !bankEq modelPost.bank implPost.bank then ["bank"] else []) ++
           (if modelPost.pools != implPost.pools || modelPost.seq != implPost.seq then ["pools"] else [])
         let tr : Spec.Tr := { env := acc.env, pre := acc.cur, op := op, ok := implOk, resp := implResp, post := implPost }
+        let pq' := if dkv.has "pq" then dkv.get "pq" else acc.pq
         let viol := Spec.monitors.filterMap (fun (pid, name, f) => if f tr then none else some s!"{seq} V {pid} {name}")
+        -- pool records as seen through the keeper's lookups: unchanged by a rejected message, and always the listed pools
+        let viol := viol ++ (if !implOk && pq' != acc.pq then [s!"{seq} V C02 rejected_unchanged_lookups"] else []) ++
+          (if !lookupsMatch implPost.pools pq' then [s!"{seq} V C02 pool_lookups_match_listing", s!"{seq} V C18 pool_lookups_match_listing"] else [])
         let tag := s!"{branchOf acc.cur op}/{if implOk then "ok" else "rej"}/{opMagnitude op}"
         let l :=
           if comps.isEmpty then s!"{seq} A {tag}"
           else s!"{seq} D {tag} comps={",".intercalate comps} model={if modelOk then "ok" else "rej:" ++ modelRej} impl={implClass} " ++
                (if comps.contains "resp" then s!"modelResp={repr modelResp} implResp={repr implResp} " else "") ++
                (if comps.contains "bank" then bankDiff modelPost.bank implPost.bank else "")
-        { acc with cur := implPost, out := (acc.out.push l) ++ viol.toArray }
+        { acc with cur := implPost, pq := pq', out := (acc.out.push l) ++ viol.toArray }
     | _ => { acc with out := acc.out.push "? E malformed" }
   else acc
 
